@@ -40,14 +40,23 @@ func leafName(i int) string { return fmt.Sprintf("leaf%d:1", i) }
 type layoutSpec struct {
 	Shards int     `json:"shards"`
 	Nodes  [][]int `json:"nodes"` // node -> shard ids
+	// Write: the ingestion history that delivers the points to this layout (nil: the canonical requests, each decoded
+	// into a batch object of its own; see stored_test.go)
+	Write *writeSpec `json:"write,omitempty"`
 
 	db      string // logical database name; node i is the database db@n<i>
 	shardOf []int  // series -> shard (production routing)
 	nodeOf  []int  // series -> node
+	// requests written through a pooled batch object: it held more rows before / held rows before / never held a row
+	poolShrunk, poolReused, poolFresh int
 }
 
 func (l *layoutSpec) String() string {
-	return fmt.Sprintf("shards=%d nodes=%v", l.Shards, l.Nodes)
+	s := fmt.Sprintf("shards=%d nodes=%v", l.Shards, l.Nodes)
+	if l.Write != nil {
+		s += fmt.Sprintf(" write=%+v", *l.Write)
+	}
+	return s
 }
 
 func genLayout(t *rapid.T) *layoutSpec {
@@ -265,44 +274,8 @@ func (e *env) build(idx int, l *layoutSpec) {
 				t.Fatalf("harness: create database: %v", err)
 			}
 		}
-		for _, batch := range d.Batches {
-			if len(batch) == 0 {
-				continue
-			}
-			ms := make([]*protoMetricsV1.Metric, len(batch))
-			want := map[int]int{}
-			for i, p := range batch {
-				ms[i] = d.protoOf(p)
-				want[l.shardOf[p.Series]]++
-				if err := e.warmMetadata(fmt.Sprintf("%s@n%d", l.db, l.nodeOf[p.Series]), p); err != nil {
-					t.Fatalf("harness: metadata: %v", err)
-				}
-			}
-			rt, err := routeBatch(ms, l.Shards, timeutil.Interval(storageIntervalMs))
-			if err != nil {
-				t.Fatalf("%v", err)
-			}
-			got := map[int]int{}
-			for _, r := range rt {
-				got[int(r.shard)] += r.rows
-				ni := -1
-				for k, shards := range l.Nodes {
-					for _, s := range shards {
-						if s == int(r.shard) {
-							ni = k
-						}
-					}
-				}
-				if ni < 0 {
-					t.Fatalf("production routing picked shard %d of %d shards", r.shard, l.Shards)
-				}
-				if err := writeBlock(e.n, fmt.Sprintf("%s@n%d", l.db, ni), r); err != nil {
-					t.Fatalf("harness: write: %v", err)
-				}
-			}
-			if fmt.Sprint(got) != fmt.Sprint(want) {
-				t.Fatalf("routing of a batch differs from routing row by row: batch %v, single rows %v", got, want)
-			}
+		if err := e.writeRequests(l); err != nil {
+			t.Fatalf("%v", err)
 		}
 		bad := ""
 		for ni := range l.Nodes {
@@ -324,6 +297,107 @@ func (e *env) build(idx int, l *layoutSpec) {
 	}
 	e.nc.SetLayout(l.db, e.opt, l.layoutMap(-1))
 	e.xc.SetLayout(l.db, e.opt, l.layoutMap(-1))
+}
+
+// nodeOfShard: the node of the layout that holds the shard (-1: none).
+func (l *layoutSpec) nodeOfShard(shard int) int {
+	for k, shards := range l.Nodes {
+		for _, s := range shards {
+			if s == shard {
+				return k
+			}
+		}
+	}
+	return -1
+}
+
+// writeRequests delivers the points to the databases of the layout: the requests of the layout's ingestion history
+// (canonical ones when the layout has none of its own) are routed by the production broker path - all of them
+// first, the way a broker hands its requests to the channels without waiting for the storage nodes (no blocking call
+// lies between two uses of the batch pool) - and then written request by request, with the flushes that follow them.
+func (e *env) writeRequests(l *layoutSpec) error {
+	d := e.d
+	reqs := canonicalRequests(d)
+	pooled := false
+	if l.Write != nil {
+		reqs, pooled = l.Write.Requests, l.Write.Pooled
+	}
+	blocks := make([][]routed, len(reqs))
+	route := func() error {
+		if pooled {
+			defer isolatePool()()
+		}
+		for ri, rq := range reqs {
+			if pooled && rq.Foreign > 0 {
+				if err := foreignRequest(rq.Foreign, rq.ForeignShards); err != nil {
+					return err
+				}
+			}
+			if len(rq.Rows) == 0 {
+				continue
+			}
+			ms := make([]*protoMetricsV1.Metric, len(rq.Rows))
+			want := map[int]int{}
+			for i, at := range rq.Rows {
+				p := d.Batches[at[0]][at[1]]
+				ms[i] = d.protoOf(p)
+				want[l.shardOf[p.Series]]++
+			}
+			var rt []routed
+			var err error
+			if pooled {
+				var use poolUse
+				rt, use, err = routeBatchPooled(ms, l.Shards, timeutil.Interval(storageIntervalMs))
+				switch {
+				case use.backing > use.rows:
+					l.poolShrunk++
+				case use.backing > 0:
+					l.poolReused++
+				default:
+					l.poolFresh++
+				}
+			} else {
+				rt, err = routeBatch(ms, l.Shards, timeutil.Interval(storageIntervalMs))
+			}
+			if err != nil {
+				return err
+			}
+			got := map[int]int{}
+			for _, r := range rt {
+				got[int(r.shard)] += r.rows
+				if l.nodeOfShard(int(r.shard)) < 0 {
+					return fmt.Errorf("production routing picked shard %d of %d shards", r.shard, l.Shards)
+				}
+			}
+			if fmt.Sprint(got) != fmt.Sprint(want) {
+				return fmt.Errorf("routing of a request differs from routing row by row: request %v, single rows %v (layout %s)", got, want, l)
+			}
+			blocks[ri] = rt
+		}
+		return nil
+	}
+	if err := route(); err != nil {
+		return err
+	}
+	for ri, rq := range reqs {
+		for _, at := range rq.Rows {
+			p := d.Batches[at[0]][at[1]]
+			if err := e.warmMetadata(fmt.Sprintf("%s@n%d", l.db, l.nodeOf[p.Series]), p); err != nil {
+				return fmt.Errorf("harness: metadata: %v", err)
+			}
+		}
+		for _, r := range blocks[ri] {
+			if err := writeBlock(e.n, fmt.Sprintf("%s@n%d", l.db, l.nodeOfShard(int(r.shard))), r); err != nil {
+				return fmt.Errorf("harness: write: %v", err)
+			}
+		}
+		for _, f := range rq.Flush {
+			if err := e.flushLayout(l, f); err != nil {
+				return fmt.Errorf("harness: flush %+v: %v", f, err)
+			}
+		}
+	}
+	return nil
 }
 
 // warmMetadata assigns the ids of the row's metric, tag keys and fields on the node that will
@@ -616,17 +690,18 @@ type caseBudget struct {
 	scheds           int // drawn send-interleaved schedules per number of leaves (run at the root; the first one also at the intermediate node)
 	// orderBy: tie-prone data, every statement has an order by clause (TestOrderByLayoutIndependence)
 	orderBy bool
+	// stored: flushes between the requests, series whose hours follow the shards of one layout, statements that mostly
+	// carry the tag condition the data was shaped for (TestStoredFamiliesAndRequestBatching)
+	stored bool
 	// skewFields: under one of the layouts a node never saw some fields of the first metric, statements are mostly
 	// `select * ... group by` (TestGroupByFieldsANodeNeverSaw)
 	skewFields bool
 }
 
 func runCase(t *rapid.T, group string, b caseBudget) {
-	d := genDatasetWith(t, dataOpt{ties: b.orderBy, skew: b.skewFields})
-	// Storage state is no part of this property (C11/C03): every layout keeps its rows in the memory
-	// database. (On the tree the harness was written against, flushing loses the points of one of two
-	// families of a shard and can store a field of a series that reports only some fields under
-	// another field's id; both were handed to C11.)
+	d := genDatasetWith(t, dataOpt{ties: b.orderBy, skew: b.skewFields, stored: b.stored})
+	// Storage state as such is no part of this property (C11/C03): unless the case places flushes (b.stored), every
+	// layout keeps its rows in the memory databases.
 	layouts := []*layoutSpec{{Shards: 1, Nodes: [][]int{{0}}}}
 	nl := rapid.IntRange(2, b.layouts).Draw(t, "nLayouts")
 	for i := 0; i < nl; i++ {
@@ -638,6 +713,8 @@ func runCase(t *rapid.T, group string, b caseBudget) {
 		mode = modeOrder
 	case b.skewFields:
 		mode = modeSkew
+	case b.stored:
+		mode = modeStored
 	}
 	if b.skewFields || (mode == modeDefault && !d.Wide && rapid.IntRange(0, 5).Draw(t, "fieldsFollowNodes") == 3) {
 		// one of the layouts with >= 2 nodes decides which series of the first metric report which fields
@@ -648,6 +725,20 @@ func runCase(t *rapid.T, group string, b caseBudget) {
 			}
 		}
 	}
+	if b.stored {
+		// one of the layouts with >= 2 shards decides in which hours the series of the first metric report
+		for _, l := range layouts[1:] {
+			if storeByShard(t, d, l) {
+				ev.Class(group, "case:hours-of-the-first-metric's-series-follow-the-shards-of-one-layout", 1)
+				break
+			}
+		}
+		if len(d.Flushes) == 0 {
+			d.Flushes = []flushSpec{{After: rapid.IntRange(0, len(d.Batches)-1).Draw(t, "flushAfter"), Family: rapid.IntRange(0, 2).Draw(t, "flushFamily")}}
+		}
+	}
+	// how the points reach the layouts (the reference layout: canonical requests, a batch object per request)
+	genWriteSpecs(t, d, layouts[1:])
 	var queries []*querySpec
 	nq := rapid.IntRange(1, b.queries).Draw(t, "nQueries")
 	for i := 0; i < nq; i++ {
@@ -687,6 +778,26 @@ func runCase(t *rapid.T, group string, b caseBudget) {
 	}
 	if e.retries > 0 {
 		ev.Class(group, "info:layout-rewritten-after-failed-readback", e.retries)
+	}
+	for _, l := range layouts[1:] {
+		if l.Write == nil {
+			ev.Class(group, "write:canonical-requests,batch-object-per-request", 1)
+			continue
+		}
+		ev.Class(group, fmt.Sprintf("write:pooled=%v,rebatched=%v", l.Write.Pooled, l.Write.Rebatched), 1)
+		ev.Class(group, "write:pool:request-smaller-than-what-the-batch-object-held-before", l.poolShrunk)
+		ev.Class(group, "write:pool:request-in-a-used-batch-object-not-smaller", l.poolReused)
+		ev.Class(group, "write:pool:request-in-a-batch-object-that-never-held-a-row", l.poolFresh)
+		foreign := 0
+		for _, rq := range l.Write.Requests {
+			if rq.Foreign > 0 {
+				foreign++
+			}
+		}
+		ev.Class(group, "write:pool:request-of-another-database-in-between", foreign)
+	}
+	if len(d.Flushes) > 0 {
+		ev.Class(group, fmt.Sprintf("case:flushes=%d", len(d.Flushes)), 1)
 	}
 	dataJSON := fmt.Sprintf("%+v", d)
 	ev.Class(group, fmt.Sprintf("case:queries=%d", len(queries)), 1)
@@ -854,6 +965,7 @@ func (e *env) runLayout(q *querySpec, sql string, m *modelOut, ref node.Result, 
 	if len(q.GroupBy) > 0 && l.shardWithoutGroupKey(e.d, q) {
 		classes = append(classes, "layout:a-shard-holds-only-series-without-the-group-key-next-to-a-shard-with")
 	}
+	classes = append(classes, l.storedClasses(e.d, q)...)
 	if n := l.lateFieldGroups(e.d, q); n > 0 {
 		// every delivery order is run: in some of them the answer of the node without the field is merged first
 		classes = append(classes, "fields:select-*-group-by:node-without-a-field-shares-groups-with-nodes-that-have-it="+bucket(n, 2, 3, 5))
